@@ -22,6 +22,19 @@ chk("C06", "exploration",
     "Every aggregation function, with/without group-by and time bins, and histograms are computed by the real stores and the real proxy merge and compared with values computed directly from the matching documents; the per-fraction partial results of each case are additionally merged with the real seq.MergeQPRs in 6 seeded orders/groupings which must all agree with the model.",
     "Float sums within 1e-9 relative tolerance; single-valued numeric fields; not-exists compared per group.", DIFF + " + merge-order permutation monitor", "DESIGN.md 2/C06")
 
+chk("C03", "exploration",
+    "Metamorphic + model check at run time over data shapes built to straddle the on-disk block constants (>64Ki postings per token, postings ending at a LID-block edge, continued posting lists over 2-3 blocks, 4095/4096/4097/9000 IDs, token dictionaries of 16383/16384/16385 bytes and of several blocks): the same battery of searches, histograms, aggregations and fetch lists is answered by the active fraction, the freshly sealed one (preloaded tables), after a cache reset, after reopening from files without and with .frac-cache, and with a few-KiB cache; every answer must equal the model.",
+    "Block constants are compile-time, shapes are built to hit them; seal configuration (sorted docs on/off, doc block size, zstd level) is seeded per shape.", DIFF + " across fraction forms", "DESIGN.md 2/C03")
+chk("C14", "exploration",
+    "Soundness monitors for the pruning predicates: util.Bitmask.HasBitsIn against brute force (every bit set up to 12 bits, sampled to 22), seq.MIDsDistribution directly and after its JSON round trip for every from/to offset and bucket size in a bound, frac.Info.BuildDistribution/IsIntersecting for document sets 10 min..30 h before creation; plus end-to-end: real fractions holding documents hours older than now are sealed, reloaded through the index header and through .frac-cache and searched/fetched with ranges on and off minute and document borders against the model.",
+    "End-to-end part positions the corpus relative to the wall clock (seq-db stamps fraction creation itself).", "soundness oracle on pruning predicates (small-scope enumeration + seeded) and " + DIFF, "DESIGN.md 2/C14")
+chk("C17", "exploration",
+    "Seeded re-delivery histories (whole-bulk repeats, partial overlaps at start/middle/end/interleaved, the same document several times, repeats racing with the original from several goroutines, repeats after a rotation) are executed against a real store built with the race detector; a battery of searches, histograms, aggregations, fetches and the fractions' DocsTotal is compared with a set-semantics model in active form, after sealing and after a restart.",
+    "Where a repeat landed in another fraction only 'listed once' and the fetched bytes are judged, as the statement says.", DIFF + " (set semantics) + Go race detector", "DESIGN.md 2/C17")
+chk("C20", "exploration",
+    "Generated JSON objects (escapes, unicode, every number notation, nested containers, empty object) are stored and read back through the store's fetch filter and through the proxy with a '| fields' / '| fields except' pipe; encoding/json, comparing numbers as exact rationals, checks validity, the exact key set and value equality, byte identity without a pipe and an unchanged ID sequence.",
+    "No duplicate keys; encoding/json is the independent reader.", "runtime oracle with an independent JSON reader over seeded documents and field lists", "DESIGN.md 2/C20")
+
 def main():
     claimed = sorted(CHECKS)
     na = [{"property_id": p, "reason": "check not built yet in this session (planned; see DESIGN.md section 2)"} for p in ALL if p not in CHECKS]
